@@ -53,6 +53,7 @@ type PConn struct {
 	rules   []*Rule
 	msgs    [2]int
 	black   bool
+	blackD  [2]bool // one direction only swallowed (half-open link)
 	hold    [2]bool
 	held    [2][][]byte
 	closed  bool
@@ -182,6 +183,36 @@ func (pc *PConn) Blackhole() {
 	pc.black = true
 	pc.mu.Unlock()
 	pc.p.rec.Emit("WireFault", "conn", pc.ID, "fault", "blackhole", "dir", "both", "frame", 0)
+}
+
+// HalfCloseToServer sends the server a FIN (as a peer that is done sending would) while the connection stays open otherwise.
+func (pc *PConn) HalfCloseToServer() {
+	pc.p.rec.Emit("WireFault", "conn", pc.ID, "fault", "half-close", "dir", "c2s", "frame", 0)
+	pc.mu.Lock()
+	pc.blackD[C2S] = true
+	pc.mu.Unlock()
+	if t, ok := pc.s.(*net.TCPConn); ok {
+		t.CloseWrite()
+	}
+}
+
+// BlackholeDir swallows one direction only: a half-open link (the other direction keeps being delivered).
+func (pc *PConn) BlackholeDir(dir int) {
+	pc.mu.Lock()
+	pc.blackD[dir] = true
+	pc.mu.Unlock()
+	pc.p.rec.Emit("WireFault", "conn", pc.ID, "fault", "blackhole", "dir", dirName[dir], "frame", 0)
+}
+
+// InjectClose makes the client see a close frame with the given status code coming from the server, then the end of the stream.
+func (pc *PConn) InjectClose(code int) {
+	pc.p.rec.Emit("WireFault", "conn", pc.ID, "fault", fmt.Sprintf("close-frame-%d", code), "dir", "s2c", "frame", 0)
+	pc.mu.Lock()
+	pc.black = true // nothing else gets through any more
+	pc.mu.Unlock()
+	pc.c.Write([]byte{0x88, 0x02, byte(code >> 8), byte(code)})
+	time.Sleep(2 * time.Millisecond)
+	pc.Kill("fin")
 }
 
 func (pc *PConn) Hold(dir int) {
@@ -316,7 +347,7 @@ func (pc *PConn) pump(dir int, src, dst net.Conn) {
 		if op >= 8 { // control frame
 			kind := map[byte]string{8: "close", 9: "ping", 10: "pong"}[op]
 			pc.mu.Lock()
-			black := pc.black
+			black := pc.black || pc.blackD[dir]
 			pc.mu.Unlock()
 			if black {
 				continue
@@ -356,7 +387,7 @@ func (pc *PConn) pump(dir int, src, dst net.Conn) {
 				}
 			}
 		}
-		black := pc.black
+		black := pc.black || pc.blackD[dir]
 		pc.mu.Unlock()
 		if rule != nil {
 			switch rule.Pos {
@@ -399,6 +430,13 @@ func (pc *PConn) pump(dir int, src, dst net.Conn) {
 				}
 				dst.Write(append(pendingRaw, raw[:cut]...))
 				pc.p.rec.Emit("WireFault", "conn", pc.ID, "fault", rule.Pos+"/"+rule.Style, "dir", dirName[dir], "frame", idx)
+				if rule.Style == "hole" { // the link falls silent in the middle of the frame instead of ending
+					pc.mu.Lock()
+					pc.black = true
+					pc.mu.Unlock()
+					pendingRaw = nil
+					continue
+				}
 				// let bytes already written drain before the close for FIN-style faults
 				if rule.Style == "fin" {
 					time.Sleep(2 * time.Millisecond)
